@@ -196,9 +196,13 @@ where
         }
 
         trace!("checkout interested in pooled connections");
-        inner.waiting.entry(token).or_default().push_back(tx);
+        let pending_attempt = inner.connecting.contains(&token);
+        inner.waiting.entry(token).or_default().push_back(Waiter {
+            tx,
+            pending_attempt,
+        });
 
-        if inner.connecting.contains(&token) {
+        if pending_attempt {
             trace!("connection in progress elsewhere, will wait");
             connector = None;
             Checkout::new(token, self.as_ref(), rx, connector, None, &inner.config)
@@ -210,6 +214,7 @@ where
             }
             trace!("connecting to host");
             Checkout::new(token, self.as_ref(), rx, connector, None, &inner.config)
+                .owning_attempt(multiplex)
         }
     }
 }
@@ -263,10 +268,10 @@ where
                         .map(|idle| idle.verif_iter().map(&visit).collect())
                         .unwrap_or_default(),
                     waiters_live: waiters
-                        .map(|w| w.iter().filter(|tx| !tx.is_closed()).count())
+                        .map(|w| w.iter().filter(|w| !w.tx.is_closed()).count())
                         .unwrap_or(0),
                     waiters_closed: waiters
-                        .map(|w| w.iter().filter(|tx| tx.is_closed()).count())
+                        .map(|w| w.iter().filter(|w| w.tx.is_closed()).count())
                         .unwrap_or(0),
                     connecting: inner.connecting.contains(&token),
                 }
@@ -361,6 +366,20 @@ where
     }
 }
 
+/// A checkout queued for a connection to one host.
+#[derive(Debug)]
+struct Waiter<C, B>
+where
+    C: PoolableConnection<B>,
+    B: Send + 'static,
+{
+    tx: Sender<Pooled<C, B>>,
+
+    /// This checkout does not connect on its own: it waits for the
+    /// connection attempt which was in progress when it was created.
+    pending_attempt: bool,
+}
+
 #[derive(Debug)]
 pub(in crate::client) struct PoolInner<C, B>
 where
@@ -370,7 +389,7 @@ where
     config: Config,
 
     connecting: HashSet<Token>,
-    waiting: HashMap<Token, VecDeque<Sender<Pooled<C, B>>>>,
+    waiting: HashMap<Token, VecDeque<Waiter<C, B>>>,
 
     idle: HashMap<Token, IdleConnections<C, B>>,
 }
@@ -389,10 +408,19 @@ where
         }
     }
 
+    /// The connection attempt other checkouts may be waiting for is over.
+    ///
+    /// Called by the checkout which marked the attempt as in progress. If the
+    /// attempt did not deliver a connection, the checkouts which were waiting
+    /// for it are released (their checkout resolves as unavailable) instead of
+    /// waiting forever.
     pub(in crate::client) fn cancel_connection(&mut self, token: Token) {
         let existed = self.connecting.remove(&token);
         if existed {
             trace!("pending connection cancelled");
+            if let Some(waiters) = self.waiting.get_mut(&token) {
+                waiters.retain(|waiter| !waiter.pending_attempt);
+            }
         }
     }
 }
@@ -417,12 +445,15 @@ where
     B: Send + 'static,
 {
     fn push(&mut self, token: Token, mut connection: C, pool_ref: PoolRef<C, B>) {
-        self.connecting.remove(&token);
+        if connection.can_share() {
+            // Only a connection which can be shared ends the attempt others wait for.
+            self.connecting.remove(&token);
+        }
 
         if let Some(waiters) = self.waiting.get_mut(&token) {
             trace!(waiters=%waiters.len(), ?token, "walking waiters");
 
-            while let Some(waiter) = waiters.pop_front() {
+            while let Some(Waiter { tx: waiter, .. }) = waiters.pop_front() {
                 if waiter.is_closed() {
                     trace!("skipping closed waiter");
                     continue;
